@@ -448,6 +448,20 @@ def gen_api_cases(ctx, n):
     r = ctx.rng
     out = []
     dist = collections.Counter()
+    # texts whose encoding in a one-byte codec happens to be well-formed UTF-8 with another meaning (mojibake): an
+    # implementation that guesses UTF-8 before honouring the encoding argument gets these wrong
+    for enc in ('latin-1', 'cp1251'):
+        for raw in ('select \u00e9 from t', "select '\u00a3\u20ac' x", '-- \u00fc\nselect 1', 'select \u044f'):
+            try:
+                t = raw.encode('utf-8').decode(enc)
+            except UnicodeError:
+                continue
+            if GF.encodable(t, enc):
+                dist['mojibake:' + enc] += 1
+                out.append({'kind': 'api', 'text': [ord(c) for c in t], 'enc': enc})
+    t16 = 'select 1'
+    out.append({'kind': 'api', 'text': [ord(c) for c in t16], 'enc': 'utf-16-le'})
+    dist['utf-16-le ascii'] += 1
     while len(out) < n:
         s, kind = GF.text_for(r, ctx.n(80, 300))
         encs = [e for e in GF.IMPL_ENCODINGS if GF.encodable(s, e)]
